@@ -6,9 +6,12 @@ package main
 import (
 	"fmt"
 	"go/types"
+	"os"
 
 	"golang.org/x/tools/go/ssa"
 )
+
+var schedTrace = os.Getenv("SYMGO_SCHEDTRACE") != ""
 
 const maxThreads = 12 // default; Config.MaxThreads raises it for the many-goroutine runs
 
@@ -296,6 +299,13 @@ func (r *Run) schedule() {
 			continue
 		}
 		t := en[k]
+		if schedTrace {
+			ids := ""
+			for _, x := range en {
+				ids += fmt.Sprintf(" %d:%s", x.id, x.pend.kind)
+			}
+			fmt.Fprintf(os.Stderr, "sched: grant %d (%s) of [%s ] timers=%d\n", t.id, t.pend.kind, ids, len(envs))
+		}
 		r.sched = append(r.sched, t.id)
 		r.schedPartner = append(r.schedPartner, -1)
 		t.granted = true
